@@ -45,7 +45,8 @@ deriving Repr
 def pushLast (cap : Nat) (last : List Nat) (m : Nat) : List Nat :=
   if cap = 0 then [] else if last.length + 1 > cap then last.drop 1 ++ [m] else last ++ [m]
 
-def step (e : Ev) : Op → Ev × Out
+/-- `dc` = the termination of a subscriber decrements the counter (regenerated from the source, Generated/Event.lean) -/
+def step (dc : Bool) (e : Ev) : Op → Ev × Out
   | .register tok notify cap =>
     if e.registered then (e, .errExist)
     else ({ Ev.init with registered := true, token := tok, notify := notify, cap := cap }, .ok)
@@ -67,14 +68,20 @@ def step (e : Ev) : Op → Ev × Out
       let cnt := e.counter - 1
       ({ e with subs := e.subs.erase (c, mon), counter := cnt },
         .unsubscribed (if e.notify && cnt == 0 then some .stop else none))
-  | .consumerDies c => ({ e with subs := e.subs.filter (fun s => s.1 ≠ c) }, .ok)
+  | .consumerDies c =>
+    let k : Nat := (e.subs.filter (fun s => s.1 = c)).length
+    if dc then
+      -- unregisterProcess: CleanupConsumer, then one decrement per dropped relation; Stop when the counter reaches 0
+      ({ e with subs := e.subs.filter (fun s => s.1 ≠ c), counter := e.counter - k },
+        .unsubscribed (if e.registered && e.notify && decide (1 ≤ e.counter) && decide (e.counter ≤ k) then some .stop else none))
+    else ({ e with subs := e.subs.filter (fun s => s.1 ≠ c) }, .unsubscribed none)
   | .unregister =>
     if !e.registered then (e, .errUnknown)
     else (Ev.init, .gone ((e.subs.filter (fun s => !s.2)).map (·.1)) ((e.subs.filter (fun s => s.2)).map (·.1)))
 
-def runOps (e : Ev) : List Op → Ev
+def runOps (dc : Bool) (e : Ev) : List Op → Ev
   | [] => e
-  | o :: os => runOps (step e o).1 os
+  | o :: os => runOps dc (step dc e o).1 os
 
 /-- the true number of live subscriptions (what the counter is meant to track) -/
 def Ev.live (e : Ev) : Nat := e.subs.length
